@@ -157,6 +157,14 @@ def run_check(pid, tier, prop_module, repo_factory, quiet=False, write_evidence=
       for inst in r.instances[:6]:
         samples.append(dict(rule=r.name, instance=inst['instance'], loc=inst['loc'],
                             verdict=inst['verdict'], detail=inst['detail'][:300]))
+    seen_keys = set()
+    uniq = []
+    for v in check.violations:
+      if v.key in seen_keys:
+        continue
+      seen_keys.add(v.key)
+      uniq.append(v)
+    check.violations = uniq
     for v in check.violations:
       for k in known_for:
         if k['key'] == v.key:
